@@ -355,6 +355,9 @@ theorem invalid_after_reset_reported (E : Env) (l : MemLogger) (ws : List Writte
 /-- the wrapped method only ever pushes cleanups -/
 theorem exec_cleanups_suffix : ∀ (t : Test) (s : St), ∃ pre, (exec t s).cleanups = pre ++ s.cleanups
   | .body _, s => ⟨[], by simp [exec]⟩
+  | .logsBad rest, s => by
+    rw [exec]
+    exact exec_cleanups_suffix rest _
   | .swaps rest, s => by
     rw [exec]
     exact exec_cleanups_suffix rest _
@@ -380,19 +383,64 @@ theorem runCleanups_append_restore : ∀ (pre rest : List Cleanup) (p x : Nat),
 /-- **`capture_logging` always restores the previous default logger**: whatever the outcome(s) of the
 decorated test, however `capture_logging` is nested inside it, whatever inner test cases its body runs,
 and even when the body (or an inner test) replaces the default logger itself and never puts it back. -/
-theorem default_logger_restored (t : Test) (d fresh : Nat) (seen : List Nat) :
-    (runCase (.captured t) d fresh seen).default = d := by
+theorem default_logger_restored (t : Test) (d fresh : Nat) (seen bad rep : List Nat) :
+    (runCase (.captured t) d fresh seen bad rep).default = d := by
   rw [runCase]
   simp only
   rw [exec]
   simp only
   obtain ⟨pre, h⟩ := exec_cleanups_suffix t
-    { default := fresh, fresh := fresh + 1, cleanups := [.restore d, .check fresh], seen := seen }
+    { default := fresh, fresh := fresh + 1, cleanups := [.restore d, .check fresh], seen := seen, bad := bad, reported := rep }
   rw [h, runCleanups_append_restore]
   simp [runCleanups]
 
+/-! ### what a captured log holds is reported, whatever the outcome -/
+
+theorem exec_bad_mono (x : Nat) : ∀ (t : Test) (s : St), x ∈ s.bad → x ∈ (exec t s).bad
+  | .body _, s, h => by simpa [exec] using h
+  | .logsBad rest, s, h => by
+    rw [exec]
+    exact exec_bad_mono x rest _ (List.mem_cons_of_mem _ h)
+  | .swaps rest, s, h => by
+    rw [exec]
+    exact exec_bad_mono x rest _ h
+  | .captured t, s, h => by
+    rw [exec]
+    exact exec_bad_mono x t _ h
+  | .inner t rest, s, h => by
+    rw [exec]
+    apply exec_bad_mono x rest
+    simp only
+    rw [runCase]
+    exact exec_bad_mono x t _ h
+
+theorem mem_reportsOf {l : Nat} {cs : List Cleanup} {bad : List Nat} (hc : Cleanup.check l ∈ cs) (hb : l ∈ bad) :
+    l ∈ reportsOf cs bad := by
+  unfold reportsOf
+  apply List.mem_filterMap.mpr
+  refine ⟨.check l, hc, ?_⟩
+  simp [hb]
+
+/-- A test wrapped by `capture_logging` whose body logs an entry that must be reported — a message
+deviating from its type, one that is not JSON, an unflushed traceback — has it reported by the
+`check_for_errors` cleanup: whatever the body does afterwards and however it ends (pass, fail, error,
+**skip**), since `unittest` runs every cleanup for every outcome. -/
+theorem bad_entry_reported (rest : Test) (d fresh : Nat) (seen bad rep : List Nat) :
+    fresh ∈ (runCase (.captured (.logsBad rest)) d fresh seen bad rep).reported := by
+  rw [runCase]
+  simp only
+  rw [exec, exec]
+  simp only
+  apply List.mem_append_right
+  obtain ⟨pre, h⟩ := exec_cleanups_suffix rest
+    { default := fresh, fresh := fresh + 1, cleanups := [.restore d, .check fresh], seen := seen, bad := fresh :: bad, reported := rep }
+  apply mem_reportsOf
+  · rw [h]; simp
+  · exact exec_bad_mono fresh rest _ (by simp)
+
 def Test.noSwaps : Test → Bool
   | .body _ => true
+  | .logsBad rest => rest.noSwaps
   | .swaps _ => false
   | .captured t => t.noSwaps
   | .inner t rest => t.noSwaps && rest.noSwaps
@@ -402,6 +450,8 @@ whose execution ends where the execution of the stack before it would have ended
 theorem exec_cleanups : ∀ (t : Test) (s : St), t.noSwaps = true →
     runCleanups (exec t s).cleanups (exec t s).default = runCleanups s.cleanups s.default
   | .body _, s, _ => by simp [exec]
+  | .logsBad rest, s, h => by
+    rw [exec, exec_cleanups rest _ (by simpa [Test.noSwaps] using h)]
   | .swaps _, s, h => by simp [Test.noSwaps] at h
   | .captured t, s, h => by
     rw [exec, exec_cleanups t _ (by simpa [Test.noSwaps] using h)]
@@ -416,8 +466,8 @@ theorem exec_cleanups : ∀ (t : Test) (s : St), t.noSwaps = true →
     simp [runCleanups]
 
 /-- Any test case, decorated or not, whose bodies leave the default logger alone, leaves it as it was. -/
-theorem default_logger_untouched (t : Test) (h : t.noSwaps = true) (d fresh : Nat) (seen : List Nat) :
-    (runCase t d fresh seen).default = d := by
+theorem default_logger_untouched (t : Test) (h : t.noSwaps = true) (d fresh : Nat) (seen bad rep : List Nat) :
+    (runCase t d fresh seen bad rep).default = d := by
   rw [runCase]
   simp only
   rw [exec_cleanups t _ h]
@@ -435,12 +485,15 @@ example : memValidate exEnv (some exSer) (exMsg.del "x") = .error .validationErr
 example : memValidate exEnv (some exSer) (exMsg.set "x" (.int 5)) = .error .validationError := by rfl
 example : memValidate exEnv (some exSer) (exMsg.set "zz" (.int 1)) = .error .validationError := by rfl
 example : memValidate exEnv (some exSer) (exMsg.set "timestamp" (.obj 7 false)) = .error .typeError := by rfl
-example : (runCase (.captured (.inner (.captured (.captured (.body .fail))) (.captured (.body .skip)))) 0 1 []).seen = [3, 4] := by
+example : (runCase (.captured (.inner (.captured (.captured (.body .fail))) (.captured (.body .skip)))) 0 1 [] [] []).seen = [3, 4] := by
   simp [runCase, exec, runCleanups]
 -- the body installs its own logger (2) and fails: the cleanup still brings back 0
 example : (exec (.captured (.swaps (.body .fail))) { default := 0, fresh := 1, cleanups := [] }).default = 2
-    ∧ (runCase (.captured (.swaps (.body .fail))) 0 1 []).default = 0 := by
+    ∧ (runCase (.captured (.swaps (.body .fail))) 0 1 [] [] []).default = 0 := by
   simp [runCase, exec, runCleanups]
+-- a decorated test logs a wrong-typed entry and is skipped: logger 1 is reported
+example : (runCase (.captured (.logsBad (.body .skip))) 0 1 [] [] []).reported = [1] := by
+  simp [runCase, exec, runCleanups, reportsOf]
 -- validate, reset, then an invalid message: reported
 example : (MemLogger.run exEnv {} [.write ⟨exMsg, some exSer, false⟩, .validate, .reset,
     .write ⟨exMsg.del "x", some exSer, false⟩, .validate]).2 = [.ok (), .error .validationError] := by rfl
